@@ -32,6 +32,26 @@ def issueCert (cfg : Config) (H : Hashes) (p : CertParams) (subject : PubKey) (i
     | .ok t => .ok t
     | .error e => .err e
 
+/-- certificate.rs `Certificate`: what `signed_by` / `self_signed` hand back — the parameters,
+    the subject's SubjectPublicKeyInfo, and the DER -/
+structure Certificate where
+  params : CertParams
+  subjectPublicKeyInfo : Bytes
+  der : Bytes
+  deriving Repr
+
+/-- `Certificate::key_identifier` -/
+def Certificate.keyIdentifier (H : Hashes) (c : Certificate) : Bytes :=
+  c.params.keyIdMethod.derive H c.subjectPublicKeyInfo
+
+/-- `signed_by` / `self_signed` as they return: a `Certificate` value around the signed DER -/
+def issueCertificate (cfg : Config) (H : Hashes) (p : CertParams) (subject : PubKey) (issuer : Issuer)
+    (sign : Signer) : Out Certificate :=
+  match issueCert cfg H p subject issuer sign with
+  | .ok t => .ok { params := p, subjectPublicKeyInfo := spkiDer subject, der := encode t }
+  | .err e => .err e
+  | .panic s => .panic s
+
 /-- `serialize_request_with_attributes` (signed with the subject key) -/
 def serializeRequest (p : CertParams) (subject : PubKey) (attrs : List Attribute)
     (sign : Signer) : Out Asn1 :=
